@@ -372,6 +372,12 @@ func Run(tier string) int {
 	rep.Coverage["main_family_wall_s"] = mhStart.Sub(deadline.Add(-budget)).Seconds()
 	rep.Coverage["many_hosts_merges"] = fmt.Sprintf("%d of %d", mhDone, mhTotal)
 	rep.Coverage["many_hosts_rule"] = "two files with thousands of distinct hosts each (IPv6 / IPv4, part of them shared and met in another order, together more than one host group holds), merged in both stacking orders; every stream compared before and after on all C01 observations, plus eight host-centred searches"
+	lcDone, lcTotal := checkLongConversations(rep, root, tier, deadline.Add(90*time.Second))
+	if lcDone < lcTotal {
+		timedOut = 1
+	}
+	rep.Coverage["long_conversation_merges"] = fmt.Sprintf("%d of %d", lcDone, lcTotal)
+	rep.Coverage["long_conversation_rule"] = "a file holding a conversation with thousands of direction changes (4085 ... 8173 runs, thorough up to 20000; 8-byte and 200-byte chunks, i.e. one- and two-byte run lengths) between ordinary streams, merged with an older file in both stacking orders; every stream compared before and after on all C01 observations plus six searches"
 	// part 2: the service's own merges.  In every state of the service exploration (all interleavings
 	// of imports, tagging and merges) delivering a merge result must leave what a fresh view shows
 	// unchanged - the run is replaced where it stood, also when an import arrived meanwhile.
@@ -554,78 +560,164 @@ func checkManyHosts(rep *mc.Reporter, root, tier string, _ []parsedQuery, deadli
 			files = []fileSet{newer, older}
 			name += " (stacked the other way round)"
 		}
-		dir := filepath.Join(root, fmt.Sprintf("mh%d", i))
-		os.MkdirAll(dir, 0o755)
-		defer os.RemoveAll(dir)
-		nrep := 0
-		report := func(sym, msg string) {
-			nrep++
-			if nrep > 4 {
-				return
-			}
-			rep.Report(mc.Violation{Symptom: sym, Key: name, Msg: name + ": " + msg, Replay: map[string]any{"case": j.c.name, "swapped": j.swapped}})
-		}
-		var readers []*index.Reader
-		defer func() {
-			for _, r := range readers {
-				r.Close()
-			}
-		}()
-		for fi, f := range files {
-			// the inputs are written without C01's full read-back (the stack comparison below reads every stream anyway)
-			w, err := index.NewWriter(filepath.Join(dir, fmt.Sprintf("in%d.idx", fi)))
-			if err != nil {
-				mc.Fatal("NewWriter: %v", err)
-			}
-			for _, s := range f.streams {
-				if ok, err := w.AddStream(s.ToStream(), s.ID); err != nil || !ok {
-					report("input.writer.refused", fmt.Sprintf("AddStream(%s id %d) = %v, %v", s.Name, s.ID, ok, err))
-					w.Close()
-					return
-				}
-			}
-			r, err := w.Finalize()
-			if err != nil {
-				report("input.writer.finalize", err.Error())
-				return
-			}
-			readers = append(readers, r)
-		}
-		visible := visibleSpecs(files)
-		before := checkStack(readers, visible, queries, report)
-		var merged []*index.Reader
-		var err error
-		if pt := mc.Try(func() { merged, err = index.Merge(dir, readers) }); pt != "" {
-			report("merge.panic", pt)
+		if mergeAndCompare(rep, filepath.Join(root, fmt.Sprintf("mh%d", i)), name, files, queries, map[string]any{"case": j.c.name, "swapped": j.swapped}) {
+			atomic.AddInt64(&nMerges, 1)
+		} else {
 			return
 		}
-		if err != nil {
-			report("merge.error", err.Error())
-			return
-		}
-		if len(merged) == 0 {
-			report("merge.empty-output", "Merge returned no files")
-			return
-		}
-		atomic.AddInt64(&nMerges, 1)
-		seen := map[uint64]string{}
-		for _, m := range merged {
-			for id := range m.StreamIDs() {
-				if o, dup := seen[id]; dup {
-					report("merge.duplicate-id", fmt.Sprintf("id %d is in two output files %s and %s", id, o, filepath.Base(m.Filename())))
-				}
-				seen[id] = filepath.Base(m.Filename())
-			}
-		}
-		for _, r := range readers {
-			r.Close()
-		}
-		readers = merged
-		after := checkStack(readers, visible, queries, report)
-		compareSearches(before, after, queries, report)
 		atomic.AddInt64(&nDone, 1)
 	}, func(i int, text string) {
 		rep.Report(mc.Violation{Symptom: "panic", Key: "many hosts " + jobs[i].c.name, Msg: text})
 	})
 	return int(nDone), total, nMerges
+}
+
+// mergeAndCompare writes the file sets as a stack, merges the whole stack and compares every visible
+// stream and the searches before and after.  Returns false when it could not get that far.
+func mergeAndCompare(rep *mc.Reporter, dir, name string, files []fileSet, queries []parsedQuery, replay map[string]any) bool {
+	os.MkdirAll(dir, 0o755)
+	defer os.RemoveAll(dir)
+	nrep := 0
+	report := func(sym, msg string) {
+		nrep++
+		if nrep > 4 {
+			return
+		}
+		rep.Report(mc.Violation{Symptom: sym, Key: name, Msg: name + ": " + msg, Replay: replay})
+	}
+	var readers []*index.Reader
+	defer func() {
+		for _, r := range readers {
+			r.Close()
+		}
+	}()
+	for fi, f := range files {
+		// the inputs are written without C01's full read-back (the stack comparison below reads every stream anyway)
+		w, err := index.NewWriter(filepath.Join(dir, fmt.Sprintf("in%d.idx", fi)))
+		if err != nil {
+			mc.Fatal("NewWriter: %v", err)
+		}
+		for _, s := range f.streams {
+			if ok, err := w.AddStream(s.ToStream(), s.ID); err != nil || !ok {
+				report("input.writer.refused", fmt.Sprintf("AddStream(%s id %d) = %v, %v", s.Name, s.ID, ok, err))
+				w.Close()
+				return false
+			}
+		}
+		r, err := w.Finalize()
+		if err != nil {
+			report("input.writer.finalize", err.Error())
+			return false
+		}
+		readers = append(readers, r)
+	}
+	visible := visibleSpecs(files)
+	before := checkStack(readers, visible, queries, report)
+	var merged []*index.Reader
+	var err error
+	if pt := mc.Try(func() { merged, err = index.Merge(dir, readers) }); pt != "" {
+		report("merge.panic", pt)
+		return false
+	}
+	if err != nil {
+		report("merge.error", err.Error())
+		return false
+	}
+	if len(merged) == 0 {
+		report("merge.empty-output", "Merge returned no files")
+		return false
+	}
+	seen := map[uint64]string{}
+	for _, m := range merged {
+		for id := range m.StreamIDs() {
+			if o, dup := seen[id]; dup {
+				report("merge.duplicate-id", fmt.Sprintf("id %d is in two output files %s and %s", id, o, filepath.Base(m.Filename())))
+			}
+			seen[id] = filepath.Base(m.Filename())
+		}
+	}
+	for _, r := range readers {
+		r.Close()
+	}
+	readers = merged
+	after := checkStack(readers, visible, queries, report)
+	compareSearches(before, after, queries, report)
+	return true
+}
+
+// ---- merges of long conversations ----
+//
+// The writer copies the segmentation of a stream (one varint per direction run) through a 4 KiB
+// staging buffer; a conversation with thousands of direction changes needs several rounds of it.
+// The family merges a file that holds such a conversation between ordinary streams with an older
+// file, for run counts around the multiples of the staging size and for one- and two-byte varints.
+
+func longConversationCases(tier string) (out []struct {
+	name  string
+	files []fileSet
+}) {
+	A, B := ip4(10, 0, 0, 1), ip4(10, 0, 0, 2)
+	C2S, S2C := ref.DirC2S, ref.DirS2C
+	short := func(id uint64, file string, data string) *ref.StreamSpec {
+		return &ref.StreamSpec{Name: fmt.Sprintf("s%d", id), ID: id, Client: A, Server: B, CPort: uint16(1000 + id), SPort: 80, Start: base.Add(time.Duration(id) * time.Second),
+			Pkts: []ref.PktSpec{pk(file, id*100000, 0, C2S, data), pk(file, id*100000+1, 10, S2C, "ok"+data)}}
+	}
+	chatty := func(id uint64, runs, chunk int) *ref.StreamSpec {
+		s := &ref.StreamSpec{Name: fmt.Sprintf("s%d chatty %d runs of %d bytes", id, runs, chunk), ID: id, Client: A, Server: B, CPort: uint16(1000 + id), SPort: 80, Start: base.Add(time.Duration(id) * time.Second)}
+		for i := 0; i < runs; i++ {
+			s.Pkts = append(s.Pkts, pk("b.pcap", id*100000+uint64(i), int64(i), i%2, big(chunk)[i%7:][:chunk-7]+fmt.Sprintf("%07d", i)[:7]))
+		}
+		return s
+	}
+	ns := []int{4085, 4086, 4087, 4090, 8172, 8173}
+	if tier == "thorough" {
+		ns = append(ns, 4000, 4096, 8171, 8180, 12258, 12259, 12300, 20000)
+	}
+	for _, chunk := range []int{8, 200} {
+		for _, n := range ns {
+			runs := n
+			if chunk >= 128 {
+				runs = (n + 1) / 2 // two bytes per run
+			}
+			older := fileSet{"older", []*ref.StreamSpec{short(1, "a.pcap", "one"), short(2, "a.pcap", "two"), short(11, "a.pcap", "eleven-old")}}
+			newer := fileSet{"newer", []*ref.StreamSpec{short(9, "b.pcap", "nine"), chatty(10, runs, chunk), short(11, "b.pcap", "eleven"), short(12, "b.pcap", "twelve")}}
+			out = append(out, struct {
+				name  string
+				files []fileSet
+			}{fmt.Sprintf("long conversation: %d runs of %d-byte chunks between ordinary streams", runs, chunk), []fileSet{older, newer}})
+		}
+	}
+	return
+}
+
+func checkLongConversations(rep *mc.Reporter, root, tier string, deadline time.Time) (done, total int) {
+	cases := longConversationCases(tier)
+	ref.InternFiles("a.pcap", "b.pcap")
+	var queries []parsedQuery
+	for _, t := range []string{"", "cdata:nine", "sdata:oktwelve", "cdata:0000003 then sdata:0000004", "sort:cbytes,id limit:3", "cbytes:1000:"} {
+		q, err := query.Parse(t)
+		if err != nil {
+			mc.Fatal("query menu %q: %v", t, err)
+		}
+		queries = append(queries, parsedQuery{t, q})
+	}
+	var nDone int64
+	mc.ParFor(len(cases), func(i int) {
+		if time.Now().After(deadline) {
+			return
+		}
+		for k, files := range [][]fileSet{cases[i].files, {cases[i].files[1], cases[i].files[0]}} {
+			name := cases[i].name
+			if k == 1 {
+				name += " (stacked the other way round)"
+			}
+			if !mergeAndCompare(rep, filepath.Join(root, fmt.Sprintf("lc%d_%d", i, k)), name, files, queries, map[string]any{"case": cases[i].name, "swapped": k == 1}) {
+				return
+			}
+		}
+		atomic.AddInt64(&nDone, 1)
+	}, func(i int, text string) {
+		rep.Report(mc.Violation{Symptom: "panic", Key: cases[i].name, Msg: text})
+	})
+	return int(nDone), len(cases)
 }
